@@ -366,3 +366,29 @@ func statusSummary(m map[string]int) string {
 	}
 	return strings.Join(out, ",")
 }
+
+// importObligations runs another property's check into a scratch context and re-reports, under newRule,
+// the obligations accepted by keep that are violated or undecided there. It is how a property states
+// that it *relies* on a structural fact another check establishes (BeginBlock cannot fail only while
+// escrow covers the open orders; a query by IRI finds a record only if the parser accepts what the
+// encoder writes): the same defect then shows under every property it breaks. When nothing is
+// violated one "holds" obligation records how many obligations were relied upon.
+func importObligations(c *Ctx, e *Env, run func(*Ctx, *Env), fromProp, newRule, construct, what string, keep func(o *Oblig) bool) {
+	tmp := NewCtx(fromProp, c.Tier)
+	run(tmp, e)
+	n, bad := 0, 0
+	for i := range tmp.Obligs {
+		o := &tmp.Obligs[i]
+		if !keep(o) {
+			continue
+		}
+		n++
+		if o.Status == Violated || o.Status == Undecided {
+			bad++
+			c.Violate(newRule, o.Rule+":"+o.Construct, o.Pos, o.Detail+" ("+what+")", nil)
+		}
+	}
+	if bad == 0 {
+		c.Check(n > 0, newRule, construct, "-", fmt.Sprintf("%d obligations of %s hold: %s", n, fromProp, what))
+	}
+}
